@@ -96,6 +96,37 @@ def check(rep: Report, ctx: Ctx) -> None:
            detail="for data in jsons: for record in "
                   "generate_records_from_compiled_jq(data, ...)")
 
+    # ---- R13.6 ---------------------------------------------------------------
+    rep.rule("R13.6", "a yielded span is the one built from the current "
+             "record", 1)
+    cfg = ctx.cfg(fi)
+    ys = [y for y in ast.walk(fi.node) if isinstance(y, ast.Yield)]
+    rec_loop = loops[-1] if loops else None
+    for y in ys:
+        v = y.value
+        if v is c or (isinstance(v, ast.Call) and v is c):
+            rep.ob("R13.6", "the constructed span is yielded directly", True,
+                   fi=fi, node=y, detail="yield OTelEvent(**record)")
+            continue
+        if isinstance(v, ast.Name) and rec_loop is not None:
+            binds = [b for b in ctx.defs(fi).of(v.id)
+                     if any(x is b.stmt for x in ast.walk(rec_loop))
+                     and cfg.has(b.stmt)]
+            yn = cfg.container(y)
+            ok = bool(binds) and yn is not None and cfg.every_path_defines(
+                cfg.node(rec_loop), yn, [cfg.node(b.stmt) for b in binds])
+            rep.ob("R13.6", f"'{v.id}' is (re)bound in every iteration "
+                   "before it is yielded", ok, fi=fi, node=y,
+                   detail=(f"{len(binds)} binding(s) of '{v.id}' inside the "
+                           "record loop"
+                           + ("" if ok else "; a path from the loop head to "
+                              "the yield (through the validation handler) "
+                              "carries the value of an earlier record: an "
+                              "invalid record re-emits the previous span")))
+        else:
+            raise AnalysisError(f"{fi.qualname}: yield of "
+                                f"'{unparse(v)[:40]}' outside vocabulary")
+
     # ---- R13.2 ---------------------------------------------------------------
     rep.rule("R13.2", "the three field tables agree", 3)
     ev = ctx.index.cls("OTelEvent")
